@@ -1096,9 +1096,9 @@ pub fn scen_determ(ctx: &Ctx) -> i32 {
                 let da = fresh_dir(&ctx.scratch, &format!("detA_{}_{}", t, i));
                 let db = fresh_dir(&ctx.scratch, &format!("detB_{}_{}", t, i));
                 let mut d1 = Driver::spawn(&ctx.driver).ok();
-                let o1 = run_seq(a, &da, &mut d1, &RunOpts { stop_first: true, ..Default::default() });
+                let o1 = run_seq(a, &da, &mut d1, &RunOpts { stop_first: false, ..Default::default() });
                 let mut d2 = Driver::spawn(&ctx.driver).ok();
-                let o2 = run_seq(bs, &db, &mut d2, &RunOpts { stop_first: true, child: true, ..Default::default() });
+                let o2 = run_seq(bs, &db, &mut d2, &RunOpts { stop_first: false, child: true, ..Default::default() });
                 let mut differ = None;
                 for e in ["htx", "key", "val"] {
                     let fa = std::fs::read(da.join(format!("m0.{}", e))).unwrap_or_default();
@@ -1119,7 +1119,10 @@ pub fn scen_determ(ctx: &Ctx) -> i32 {
             });
         }
     });
-    for (i, differ, diffs, cov, steps) in results.into_inner().unwrap() {
+    // implementation-side verdicts (the two runs differ) first, model disagreements after them
+    let mut res = results.into_inner().unwrap();
+    res.sort_by_key(|r| (r.1.is_none(), r.0));
+    for (i, differ, diffs, cov, steps) in res {
         b.sequences += 2;
         b.ops += steps as u64;
         b.cov.merge(&cov);
@@ -1969,6 +1972,22 @@ pub fn scen_fault(ctx: &Ctx) -> i32 {
                         ops += 1;
                     }
                     let syncop = [Op::Flush, Op::SyncAll, Op::SyncData, Op::DbSyncAll, Op::DbSyncData][(ti + i) % 5].clone();
+                    // database-level calls: a second map of another key kind (before or after this one in the
+                    // database's processing order), clean and small, so that only m0 can fail
+                    let mut second = String::new();
+                    if matches!(syncop, Op::DbSyncAll | Op::DbSyncData) && ok {
+                        let others: Vec<Kt> = Kt::ALL.iter().cloned().filter(|k| *k != seq.kt).collect();
+                        let k2 = others[(ti / 5 + i) % others.len()];
+                        let mut r2 = Rng::new(*salt ^ ti as u64);
+                        let mut ok2 = c.send(&Op::Map(1, k2, seq.params).text()) == "ok";
+                        for _ in 0..2 {
+                            ok2 = ok2 && c.send(&Op::Put(gen_key(&mut r2, k2, 0), gen_val(&mut r2, 1)).text()) == "ok";
+                        }
+                        ok2 = ok2 && c.send(&Op::Flush.text()) == "ok";
+                        ok2 = ok2 && c.send(&Op::Map(0, seq.kt, seq.params).text()) == "ok";
+                        ok = ok2;
+                        second = format!(" (second map m1 of kind {}, clean)", k2.name());
+                    }
                     let mut problem: Option<String> = None;
                     if !ok {
                         problem = Some("the updates themselves failed".into());
@@ -1990,7 +2009,7 @@ pub fn scen_fault(ctx: &Ctx) -> i32 {
                             let mut os = std::collections::BTreeMap::new();
                             os.insert(0usize, oracle.clone());
                             if let Some(e) = check_dir_against_oracle(&snap, &[(0, seq.kt)], &os) {
-                                problem = Some(format!("{} returned Ok under RLIMIT_FSIZE={} but the directory does not hold the updates: {}", syncop.text(), limit, e));
+                                problem = Some(format!("{}{} returned Ok under RLIMIT_FSIZE={} but the directory does not hold the updates: {}", syncop.text(), second, limit, e));
                             }
                             let _ = std::fs::remove_dir_all(&snap);
                         } else if !r1.starts_with("err") {
